@@ -393,7 +393,7 @@ func init() {
 					if !next() {
 						continue
 					}
-					s := append(append(append(append([]byte{}, pre...), 0x6a, byte(b)), tail...))
+					s := append(append(append([]byte{}, pre...), 0x6a, byte(b)), tail...)
 					script(c, &c13Script{Script: s, Class: "opreturn-first-data-byte"})
 				}
 			}
